@@ -15,7 +15,7 @@
    no injectivity or collision-freeness anywhere. *)
 From Coq Require Import ZArith List String.
 From GSP Require Import Base.Prelude Value.Time Value.Model RDF.Model SMT.Model
-  Merklizer.Model Merklizer.Theory.
+  Merklizer.Model Merklizer.Script Merklizer.Theory.
 Import ListNotations.
 Open Scope Z_scope.
 
@@ -122,3 +122,43 @@ Theorem C02_value_iff_existence :
   mz_proof T Hd' m p = Ok (pr, ov) -> (ex pr = true <-> exists v, ov = Some v).
 Proof. exact c02_value_iff_existence. Qed.
 Print Assumptions C02_value_iff_existence.
+
+(* ---- caller-provided tree shared by several merklizers (WithMerkleTree) ----
+   `grun T D 0 shared_init gs` runs ANY history gs on one shared tree: documents merklized
+   into it (GMerklize; a failing run keeps the leaves it already added), direct tree.Add
+   calls (GAdd), caller steps (GOn).  `with_tree m t` is merklizer m reading the tree's
+   current content t — Root() and Proof are live reads.  After any history, every
+   merklizer created so far still proves each of its entries against its CURRENT Root(),
+   and every path whose key the tree does not hold gets a verifying non-existence proof. *)
+Theorem C02_shared_member :
+  forall (T : tparams) (D : nat -> hasher) (gs : list gstep) (m : mz) (Hd' : hasher)
+         (p : path) (k : Z) (e : rdf_entry),
+  let st := fst (grun T D 0 shared_init gs) in
+  let m' := with_tree m (sh_tree st) in
+  In m (sh_mzs st) -> path_mt_entry Hd' p = Ok k -> In (k, e) (mz_entries m) ->
+  exists pr v vh,
+    mz_proof T Hd' m' p = Ok (pr, Some v) /\ ex pr = true /\ v_val v = re_val e /\
+    value_mt_entry v = Ok vh /\
+    verify_proof (tp_hl T) (tp_hm T) (mz_root T m') pr (hash_of_z k) (hash_of_z vh) = true /\
+    ((0 < tp_q T /\ (forall a b, tp_hl T a b < tp_q T) /\ (forall a b, tp_hm T a b < tp_q T) /\
+      (tp_maxlev T <= 240)%nat) ->
+     t_verify T (mz_root T m') pr k vh = Ok true).
+Proof. exact c02_shared_member. Qed.
+Print Assumptions C02_shared_member.
+
+Theorem C02_shared_nonmember :
+  forall (T : tparams) (D : nat -> hasher) (gs : list gstep) (m : mz) (Hd' : hasher)
+         (p : path) (k : Z),
+  let st := fst (grun T D 0 shared_init gs) in
+  let m' := with_tree m (sh_tree st) in
+  In m (sh_mzs st) -> (1 <= tp_maxlev T)%nat ->
+  path_mt_entry Hd' p = Ok k -> k < tp_q T ->
+  ~ In (hash_of_z k) (keys (sh_tree st)) ->
+  exists pr,
+    mz_proof T Hd' m' p = Ok (pr, None) /\ ex pr = false /\
+    verify_proof (tp_hl T) (tp_hm T) (mz_root T m') pr (hash_of_z k) 0 = true /\
+    ((0 < tp_q T /\ (forall a b, tp_hl T a b < tp_q T) /\ (forall a b, tp_hm T a b < tp_q T) /\
+      (tp_maxlev T <= 240)%nat) ->
+     forall v, v < tp_q T -> t_verify T (mz_root T m') pr k v = Ok true).
+Proof. exact c02_shared_nonmember. Qed.
+Print Assumptions C02_shared_nonmember.
